@@ -284,6 +284,13 @@ func c02MonitorCase(c *Case, rng *Rng, spec c02MonSpec, withGap bool, nops int) 
 	if !e.add(m) {
 		return
 	}
+	if rng.Chance(50) {
+		// AddMonitor has returned: the snapshot is the monitor's own initial list
+		if !e.snap(m) {
+			return
+		}
+		c.Note("snap:before-start")
+	}
 	if withGap {
 		// the cluster moves on between AddMonitor (own List) and StartMonitor (registration):
 		// creations and in-place modifications only; deletions in the gap are the recorded finding
